@@ -19,6 +19,7 @@ CONSTANTS Thr,            \* thread ids
           DtorFrees,      \* "all" : the destructor releases every allocation of the constructor | "partial" (spqlios as pinned: 1 of 4)
           TableScope,     \* "proc" : every processor owns its read-only twiddle tables | "firstowner" : tables published once and freed by the processor that built them
           PolyShare,      \* FALSE: a Lagrange polynomial is only used by the thread that created it | TRUE: the first thread's polynomial is handed to the others
+          PolyProc,       \* "creator": the polynomial points at its creating thread's processor (as pinned, D8) | "immortal": at a processor that lives as long as the process (fix 0f4e6fe)
           TempScope       \* "call" : evaluation temporaries (decomposition, FFT images, accumulator copy, test vector) are allocated per call | "static" : one set shared by all callers
 VARIABLES pc,             \* pc[t]
           left,           \* transforms still to do
@@ -66,7 +67,7 @@ Begin(t) == pc[t] = "idle" /\ left[t] > 0 /\ proc[P(t)] = "live"
 \* with PolyShare the first transform creates the shared polynomial (its precomp = the creator's processor); a later operation by anyone reads that processor
 Run(t)   == pc[t] = "loaded" /\ pc' = [pc EXCEPT ![t] = "ran"] /\ uaf' = (uaf \/ (TableScope = "firstowner" /\ tab.state = "freed"))
             /\ poly' = (IF PolyShare /\ poly = "none" THEN t ELSE poly)
-            /\ puaf' = (puaf \/ (PolyShare /\ poly # "none" /\ proc[P(poly)] = "dead")) /\ UNCHANGED <<left,proc,buf,mutex,inplanner,result,heap,tab,tmp>>
+            /\ puaf' = (puaf \/ (PolyShare /\ PolyProc = "creator" /\ poly # "none" /\ proc[P(poly)] = "dead")) /\ UNCHANGED <<left,proc,buf,mutex,inplanner,result,heap,tab,tmp>>
 End(t)   == pc[t] = "ran"
             /\ result' = [result EXCEPT ![t] = Append(@, IF buf[P(t)] = <<t, left[t]>> /\ tmp[T(t)] = <<t, left[t]>> THEN "ok" ELSE "corrupt")]
             /\ tmp' = [tmp EXCEPT ![T(t)] = IF @ = <<t, left[t]>> THEN <<"free", 0>> ELSE @]
